@@ -42,10 +42,10 @@ impl Layout {
                 constraint_degree: consts.constraint_degree,
                 num_columns_first: *dynamic_params
                     .get("num_columns_first")
-                    .unwrap_or(&consts.cpu_component_step),
+                    .unwrap_or(&consts.num_columns_first),
                 num_columns_second: *dynamic_params
                     .get("num_columns_second")
-                    .unwrap_or(&consts.cpu_component_step),
+                    .unwrap_or(&consts.num_columns_second),
             },
             None => consts,
         }
